@@ -103,9 +103,11 @@ def _transport_var_for(resp: str, L=None):
 
 
 def run(repo: Repo, rep: Report, tier: str) -> None:
+    from sa.report import guarded as _guarded
+
     from rules.c20 import rule_models_spare_endpoint_names
 
-    rule_models_spare_endpoint_names(repo, rep, "R6.15")
+    _guarded(rep, rule_models_spare_endpoint_names, repo, rep, "R6.15")
     helpers = _helpers(repo)
     consts = _consts(repo)
     rep.count("status_constant_tables", {k: len(v) for k, v in consts.items()})
@@ -285,7 +287,7 @@ def run(repo: Repo, rep: Report, tier: str) -> None:
     reuse(repo, rep, "c11", {"R11.1": "R6.8", "R11.4": "R6.9"})
     # R6.10: ... and a forced regeneration of the client that hosts the core carries the registry over the removal of its package   [= R11.5]
     reuse(repo, rep, "c11", {"R11.5": "R6.10"})
-    rule_no_redirect_following(repo, rep, "R6.11")
+    _guarded(rep, rule_no_redirect_following, repo, rep, "R6.11")
     from rules._memo import local_memo_rule
 
     local_memo_rule(repo, rep, "R6.7", ("core.loader",),
